@@ -46,6 +46,7 @@ def run(ctx) -> None:
                                  "every result of Table.sort_by is built with name=self._name; table << rows and reflected forms put the "
                                  "column names back (each fresh column named after the column of self at its position)", 5)
     ctx.section("math", _math, ctx)
+    ctx.section("compare-unnamed-columns", _compare_unnamed_columns, ctx)
     ctx.section("structure", _structure, ctx)
     ctx.section("writes", _writes, ctx)
     ctx.section("table-arith", _table_arith, ctx)
@@ -124,6 +125,24 @@ def _math(ctx) -> None:
         ctx.ob("a.math-unnamed", s.top, f"site:{k}", ok, "unnamed result", s.node,
                message=f"{q}: the result `{s.sh(s.call, 80)}` is named `{s.sh(s.name, 40)}`; binary arithmetic "
                        f"and comparisons give unnamed results")
+
+
+def _compare_unnamed_columns(ctx) -> None:
+    """A comparison does not carry a name, not even onto the columns of a table result: the comparison kernels (helpers evaluated in
+    line) never store a name other than None (the arithmetic kernel does copy the column names of a table operand, by design)."""
+    from ..sites2 import interp_of
+    from ..symx import NONE as SNONE
+    from ..symx import show
+    prog = ctx.prog
+    for q in ("vector.Vector._elementwise_compare", "table.Table._elementwise_compare", "vector._Date._elementwise_compare"):
+        f = prog.functions.get(q)
+        if f is None:
+            continue
+        it = interp_of(prog, f)
+        named = [e for e in it.events if e.kind == "store" and e.term[0] == "attr" and e.term[2] in ("_name", "name") and e.value != SNONE]
+        ctx.ob("a.math-unnamed", f, "no-name-store", not named, "the comparison kernel never stores a name", named[0].node if named else f.node,
+               message=f"{q}: `{show(named[0].term, it)[:40] if named else ''} = {show(named[0].value, it)[:40] if named else ''}` names a result "
+                       f"(column) of a comparison: (v == T) comes back with T's column names while T == v and list == T are unnamed")
 
 
 def _structure(ctx) -> None:
